@@ -527,6 +527,15 @@ class STRING2(StringDataType):
     len_type = UINT
     encoding = "utf-16-le"
 
+    @classmethod
+    def _decode(cls, stream: BytesIO) -> str:
+        str_len = cls.len_type.decode(stream)
+        if str_len == 0:
+            return ""
+        str_data = cls._stream_read(stream, str_len * 2)
+
+        return str_data.decode(cls.encoding)
+
 
 class FTIME(DINT):
     """
